@@ -29,3 +29,39 @@ func GoodCountTableOneMore(g G) []int {
 	r[0] = 1
 	return r
 }
+
+type wpath struct {
+	p []int
+	n int
+}
+
+// SIBLINGAPPEND: every extension of p is appended to the same base
+func BadExtendPaths(start []int, options []int) []wpath {
+	var out []wpath
+	p := wpath{start, len(start)}
+	for _, v := range options {
+		out = append(out, wpath{append(p.p, v), p.n + 1})
+	}
+	return out
+}
+
+func GoodExtendPaths(start []int, options []int) []wpath {
+	var out []wpath
+	p := wpath{start, len(start)}
+	for _, v := range options {
+		q := make([]int, p.n+1)
+		copy(q, p.p)
+		q[p.n] = v
+		out = append(out, wpath{q, p.n + 1})
+	}
+	return out
+}
+
+func GoodExtendClipped(start []int, options []int) [][]int {
+	var out [][]int
+	base := start[:len(start):len(start)]
+	for _, v := range options {
+		out = append(out, append(base, v))
+	}
+	return out
+}
